@@ -17,9 +17,6 @@ R("09b85350de", "config", "Prefix4::new asserts prefixlen <= 32; every caller pa
   "address, never a packet field", count=2, props=C05)
 R("e89c8b29b6", "internal", "the arm is entered only when network() has the ::ffff:0:0/96 pattern, and network() masks the address with the "
   "prefix length, so the pattern can only survive when prefixlen >= 96", requires=("C08.R6",))
-R("20e9f0a879", "config", "32 - prefixlen of a configured/interface prefix that Ipv4Subnet::new accepted on the previous line", props=C05)
-R("73d71a18c6", "config", "1 << (32 - prefixlen): prefix length of a configured/interface prefix, not packet data", props=C05)
-R("5bd63f57ef", "config", "(1 << n) - 1 with n from a configured/interface prefix", props=C05)
 R("b7c00e393d", "config", "network + offset with offset < 2^(32-prefixlen): stays inside the configured subnet", props=C05)
 R("7f379f249b", "config", "Ipv4Subnet::netmask shifts by the prefix length of a configured or interface subnet", props=C05)
 R("1a5ec36410", "config", "dest[0] of a forward route: the server list comes from the configuration", props=C05)
